@@ -13,7 +13,7 @@
    Relay side: Model/RelayItems.v (the model of C09); [wire_of k id (sent st)] are the frames
    the relay enqueued on connection k for id, oldest first. *)
 From Coq Require Import ZArith List Bool.
-From Verif Require Import Gen.GenConsts Spec.WireOk Proofs.WireOkP Model.RespWire Proofs.RespWireP
+From Verif Require Import Gen.GenConsts Spec.WireOk Proofs.WireOkP Model.RespWire Proofs.RespWireP Model.RelayCalm
   Model.RelayItems Proofs.RelaySilentP Proofs.RelayWireP.
 Import ListNotations.
 Local Open Scope Z_scope.
@@ -118,7 +118,7 @@ Print Assumptions C10_relay_timeout.
 
 (* Non-vacuity, server: a three-fragment response that satisfies the hypotheses. *)
 Example C10_example :
-  let ls := [RdCallReq1 5 false; RdCallReq2 true false; RdCallReq3; HStart 5 true; HResp 5;
+  let ls := [RdCallReq1 5 false; RdCallReq2 true false; RdCallReq3 false; HStart 5 true; HResp 5;
              HArgWriter 5 1; HClose 5 false; HArgWriter 5 2; HFlush 5 false; HFlushSel 5 true;
              HNewFrag 5; HClose 5 false; HArgWriter 5 3; HFlush 5 true; HFlushSel 5 true;
              HNewFrag 5; HClose 5 false; HFlushSel 5 true; HDone 5] in
@@ -134,3 +134,41 @@ Example C10_relay_example :
     threads st = [] /\ lookup key_eqb (0, 0, 7) (items st) = None /\ In (0, 7) (seen st) /\
     wire_of 0 7 (RelayItems.sent st) = [Res true; Cont false] /\ wire_ok (wire_of 0 7 (RelayItems.sent st)) = true.
 Proof. eexists. split; [vm_compute; reflexivity|]. vm_compute. repeat split; try reflexivity. left. reflexivity. Qed.
+
+(* ================================================================ strengthened statement (S09)
+
+   THE GRAMMAR CLAUSE FOR THE RELAY, proved for every fresh-id schedule WITHOUT OVERLAP
+   ([no_overlap], Model/RelayCalm.v: no goroutine acts on a call -- Get / Entomb / Delete
+   hitting a live item of it, or the firing of one of its timers -- while another goroutine
+   holds it, i.e. between that goroutine's lookup and the end of its frame handling), under the
+   two hypotheses on the destination the clause needs:
+     [dest_ok ls]   per connection and message id, the response-direction frames the destination
+                    delivers are a prefix of an accepted word of Spec/WireOk.v;
+     [causal cf ls] a destination does not send response frames for a message id the relay has
+                    not yet allocated on that connection (without it the relay forwards the
+                    tail of an earlier stream under a fresh id: found by search, see report).
+   Conclusion, for every caller connection k and request id: the frames enqueued for (k, id) are
+   a PREFIX OF AN ACCEPTED WORD, nothing follows a terminal frame, at most one terminal frame.
+   MISSING with respect to the full statement: exactly the schedules with an overlap -- the class
+   of the known finding relay:response-frame-after-timeout-error (C10_relay_grammar_refuted). *)
+From Verif Require Import Model.RelayCalm Proofs.RelayCalmP Proofs.RelayGrammarP.
+
+Theorem C10_relay_grammar_calm : forall cf ls st k id, run_fresh cf init ls = Some st ->
+  no_overlap cf ls -> causal cf ls -> dest_ok ls ->
+  wire_prefix_ok (wire_of k id (RelayItems.sent st)) = true /\
+  (forall l1 x l2, wire_of k id (RelayItems.sent st) = l1 ++ x :: l2 -> terminal x = true -> l2 = []) /\
+  (length (filter terminal (wire_of k id (RelayItems.sent st))) <= 1)%nat.
+Proof. exact relay_grammar_calm. Qed.
+Print Assumptions C10_relay_grammar_calm.
+
+(* [calm] (the hypothesis of C09_silent_after_end_calm) implies [no_overlap]: one excluded class *)
+Theorem C10_calm_no_overlap : forall cf ls, calm cf ls -> no_overlap cf ls.
+Proof. exact calm_no_overlap. Qed.
+Print Assumptions C10_calm_no_overlap.
+
+(* Non-vacuity: the complete relayed call satisfies the three hypotheses; the refuting run of
+   C10_relay_grammar_refuted is excluded by [no_overlap] only. *)
+Example C10_calm_example : no_overlap wit_cf calm_example /\ causal wit_cf calm_example /\ dest_ok calm_example.
+Proof. exact calm_example_hyps. Qed.
+Example C10_refuting_run_overlaps : sched wit_cf no_overlap_step init [] wit_wire = false.
+Proof. exact wit_wire_overlap. Qed.
